@@ -60,7 +60,7 @@ def bool_switches(body, local):
     return res
 
 
-TRY_BRANCH = re.compile(r"::ops::Try>::branch$")
+TRY_BRANCH = re.compile(r"\bTry>?::branch$")
 
 
 def enum_switches(body, local, through_try=True):
@@ -116,9 +116,9 @@ def enum_switches(body, local, through_try=True):
     return res
 
 
-POLL = re.compile(r"::future::Future>::poll$|::future::future::Future>::poll$")
-INTO_FUTURE = re.compile(r"::future::IntoFuture>::into_future$")
-PIN_NEW = re.compile(r"std::pin::Pin::<Ptr>::new_unchecked$")
+POLL = re.compile(r"future::Future>?::poll$")
+INTO_FUTURE = re.compile(r"future::IntoFuture>?::into_future$")
+PIN_NEW = re.compile(r"\bPin::<Ptr>::new_unchecked$")
 
 
 def awaited(body, call):
@@ -133,8 +133,8 @@ def awaited(body, call):
             if not c.args:
                 continue
             a = op_local(c.args[0])
-            if a in fut and (INTO_FUTURE.search(c.orig_name) or PIN_NEW.search(c.name) or
-                             re.search(r"std::boxed::Box::<T>::pin$|::ops::DerefMut>::deref_mut$|Pin::<Ptr>::as_mut$", c.name)):
+            if a in fut and (INTO_FUTURE.search(c.orig_name) or INTO_FUTURE.search(c.name) or PIN_NEW.search(c.name) or
+                             re.search(r"\bBox::<T>::pin$|\bDerefMut>::deref_mut$|Pin::<Ptr>::as_mut$", c.name)):
                 if c.dest[0] not in fut:
                     fut.add(c.dest[0])
                     changed = True
@@ -183,17 +183,34 @@ def is_discarded(body, local, ignore_drop=True):
     return len(us) == 0
 
 
-def assigns_variant(body, variant, adt_pat=None, into_local=0):
-    """blocks where `into_local` (default the return place) is assigned an aggregate of enum variant
-    `variant` (e.g. 'Ok', 'Some')"""
+def return_holders(body, into_local=0):
+    """locals whose value is moved/copied (transitively) into `into_local` (default: the return place);
+    async-trait bodies return through `__ret`"""
+    hs = {into_local}
+    changed = True
+    while changed:
+        changed = False
+        for i, j, s in body.stmts():
+            if s["p"][0] in hs and len(s["p"]) == 1 and s["r"]["k"] == "Use":
+                o = s["r"]["o"][0]
+                if o["k"] in ("cp", "mv") and len(o["p"]) == 1 and o["p"][0] not in hs:
+                    hs.add(o["p"][0])
+                    changed = True
+    return hs
+
+
+def assigns_variant(body, variant, adt_pat=None, into_local=0, with_stmt=False):
+    """blocks where `into_local` (default the return place, incl. locals moved into it) is assigned an
+    aggregate of enum variant `variant` (e.g. 'Ok', 'Some')"""
     out = []
+    hs = return_holders(body, into_local)
     for i, j, s in body.stmts():
-        if s["p"][0] != into_local or len(s["p"]) != 1:
+        if s["p"][0] not in hs or len(s["p"]) != 1:
             continue
         r = s["r"]
         if r["k"] == "Agg" and r.get("ak") == "adt" and r.get("variant") == variant:
             if adt_pat is None or re.search(adt_pat, r["adt"]):
-                out.append(i)
+                out.append((i, j, s) if with_stmt else i)
     return out
 
 
